@@ -124,6 +124,8 @@ impl Caret {
     }
 
     pub fn del(&mut self, buf: &mut Buffer, current_layer: usize) {
+        #[cfg(icy_engine_verif)]
+        crate::verif::tick(1);
         if let Some(line) = buf.layers[current_layer].lines.get_mut(self.pos.y as usize) {
             let i = self.pos.x as usize;
             if i < line.chars.len() {
@@ -133,6 +135,8 @@ impl Caret {
     }
 
     pub fn ins(&mut self, buf: &mut Buffer, current_layer: usize) {
+        #[cfg(icy_engine_verif)]
+        crate::verif::tick(1);
         if let Some(line) = buf.layers[current_layer].lines.get_mut(self.pos.y as usize) {
             let i = self.pos.x as usize;
             if i < line.chars.len() {
@@ -300,6 +304,8 @@ impl Buffer {
 
         let layer = &mut self.layers[layer];
         for i in start_line..=end_line {
+            #[cfg(icy_engine_verif)]
+            crate::verif::tick(1);
             let line = &mut layer.lines[i as usize];
             if line.chars.len() > start_column {
                 line.chars.insert(end_column as usize, AttributedChar::default());
@@ -317,6 +323,8 @@ impl Buffer {
 
         let layer = &mut self.layers[layer];
         for i in start_line..=end_line {
+            #[cfg(icy_engine_verif)]
+            crate::verif::tick(1);
             let line = &mut layer.lines[i as usize];
             if line.chars.len() > start_column {
                 line.chars.insert(start_column, AttributedChar::default());
@@ -400,6 +408,8 @@ impl Buffer {
     }
 
     fn remove_terminal_line(&mut self, layer: usize, line: i32) {
+        #[cfg(icy_engine_verif)]
+        crate::verif::tick(1);
         if line >= self.layers[layer].get_line_count() {
             return;
         }
@@ -411,6 +421,8 @@ impl Buffer {
     }
 
     fn insert_terminal_line(&mut self, layer: usize, line: i32) {
+        #[cfg(icy_engine_verif)]
+        crate::verif::tick(1);
         if let Some((_, end)) = self.terminal_state.get_margins_top_bottom() {
             if end < self.layers[layer].get_line_count() {
                 self.layers[layer].lines.remove(end as usize);
